@@ -34,7 +34,7 @@ func (gatesEngine) DriverEngine() string { return "gates" }
 
 func (gatesEngine) Budget(tier string) int {
 	if tier == "thorough" {
-		return 30000
+		return 100000
 	}
 	return 2500
 }
@@ -210,7 +210,7 @@ func (gatesEngine) Corpus() []Case {
 /**************** generators ****************/
 
 var gUsers = []string{"test", "admin", "", "x", "a:b", "\xc3\xbcser", "test ", "Test"}
-var gPwds = []string{"123", "", "secret", "p:w", "123 ", "\xff\x00", "0"}
+var gPwds = []string{"123", "", "secret", "Secret", "p:w", "123 ", "\xff\x00", "0"}
 
 func genAccounts(r *Rand) []account {
 	switch r.Intn(8) {
